@@ -85,6 +85,12 @@ class TwoRateTokenBucket(Device):
                     yield env.timeout(
                         (packet.size - self.current_bucket_peak) * 8.0 / self.pir
                     )
+                    # the committed bucket keeps filling during the wait
+                    self.current_bucket_commit = min(
+                        self.cbs,
+                        self.current_bucket_commit
+                        + self.cir * (env.now - self.update_time) / 8.0,
+                    )
                     self.current_bucket_peak = 0.0
                     packet.color = "red"
                     self.update_time = env.now
